@@ -1353,6 +1353,8 @@ class UserID(Packet):
         uid = UserID()
         uid.header = copy.copy(self.header)
         uid.uid = self.uid
+        # octets that were not UTF-8 are written back through the same fallback codec they were read with
+        uid._encoding_fallback = self._encoding_fallback
         return uid
 
     def parse(self, packet):
